@@ -91,7 +91,11 @@ ZeroH   == Rep(0, 8)
 Heights == {ZeroH, Rep(0, 7) \o <<1>>, Rep(0, 6) \o <<1, 0>>, <<0, 0, 0, 0, 255, 255, 255, 255>>,
             <<0, 0, 0, 1, 0, 0, 0, 0>>, <<128>> \o Rep(0, 7), Rep(255, 7) \o <<254>>, Rep(255, 8)}
 U16s    == {<<0, 0>>, <<0, 1>>, <<0, 255>>, <<1, 0>>, <<128, 0>>, <<255, 255>>}
-IdNs    == Bases3 \cup {[V0(Rep(0, 9) \o <<1>>) EXCEPT ![1] = 1],       \* unsupported version
+\* boundary namespaces: least, the reserved thresholds and their neighbours, greatest version 0,
+\* TAIL_PADDING and PARITY_SHARE (the two greatest)
+IdNsEdge == {V0(Rep(0, 10)), MaxPrimary, V0(Rep(0, 8) \o <<1, 0>>), V0(Rep(255, 10)), MinSecondary, V255(1),
+             V255(254), V255(255)}
+IdNs    == Bases3 \cup IdNsEdge \cup {[V0(Rep(0, 9) \o <<1>>) EXCEPT ![1] = 1],       \* unsupported version
                         [V0(Rep(0, 9) \o <<1>>) EXCEPT ![19] = 1],      \* last prefix byte of version 0
                         [V0(Rep(0, 9) \o <<1>>) EXCEPT ![2] = 1],       \* first prefix byte of version 0
                         [V255(0) EXCEPT ![28] = 254]}                   \* last prefix byte of version 255
